@@ -254,6 +254,13 @@ func (e *Env) pass(class string) ([]byte, string) {
 		return FreshPass(e.Rng), "other"
 	case "pub":
 		return append([]byte{}, m.Pub...), "pub"
+	case "curnul":
+		// the current passphrase followed by NUL bytes: HMAC-based key derivation zero-pads short keys, so a check
+		// that only derives the key cannot tell it from the current passphrase - but it is a different passphrase
+		if m.Priv != nil {
+			return append(append([]byte{}, m.Priv...), make([]byte, e.Rng.Range(1, 3))...), "curnul"
+		}
+		return FreshPass(e.Rng), "other"
 	case "bad":
 		return []byte(e.Rng.PickS("abc", "has space in it", "star*star*star", strings.Repeat("x", 41), "ünïcödépass", "tab\tpass1")), "bad"
 	case "empty":
